@@ -350,10 +350,19 @@ def inlined(module, func, depth=2, tests=False, exclude=(), nested=False):
                                 if id(n) in inside:
                                     continue
                                 if id(n) in chain:
-                                    if not isinstance(n, (ast.Call, ast.UnaryOp, ast.Compare, ast.BinOp, ast.keyword)):
+                                    if isinstance(n, (ast.ListComp, ast.SetComp, ast.GeneratorExp, ast.DictComp)):
+                                        # the iterable of the first `for` of a comprehension is evaluated once, at once
+                                        g0 = n.generators[0]
+                                        if not (g0.iter is hc or id(g0.iter) in chain):
+                                            pure = False
+                                    elif isinstance(n, ast.comprehension):
+                                        pass
+                                    elif not isinstance(n, (ast.Call, ast.UnaryOp, ast.Compare, ast.BinOp, ast.keyword)):
                                         pure = False
                                 elif isinstance(n, (ast.Call, ast.Await, ast.Yield, ast.YieldFrom, ast.NamedExpr, ast.Lambda, ast.ListComp, ast.SetComp, ast.DictComp, ast.GeneratorExp, ast.IfExp, ast.BoolOp)):
-                                    pure = False
+                                    # parts of a comprehension that contains the call (its element / filters) run after the call anyway
+                                    if not any(isinstance(c_, (ast.ListComp, ast.SetComp, ast.GeneratorExp, ast.DictComp)) and id(c_) in chain and any(x is n for x in ast.walk(c_)) for c_ in ast.walk(root)):
+                                        pure = False
                             if pure:
                                 _COUNTER[0] += 1
                                 tmp = f"__v{_COUNTER[0]}"
